@@ -801,9 +801,8 @@ class CallsMixin:
             return V.vconc(ExcInst(cls, tuple(args)))
         if issubclass(cls, enum.Enum):
             sh = self.shape_of_class(cls)
-            v = V.coerce(self.as_sym(args[0]), sh.value_shape)
-            ev = Val(sh, v)
-            self.raise_side(st, "ValueError", z3.Not(V.wf(ev)))
+            ev, ok = V.enum_from_value(sh, self.as_sym(args[0]))
+            self.raise_side(st, "ValueError", z3.Not(ok))
             return ev
         if cls is dict:
             return self.b_dict(args, kwargs, st)
@@ -839,15 +838,41 @@ class CallsMixin:
         init = self.find_method(cls, "__init__")
         if init is None:
             raise OutOfSubset(f"class {cls.__name__} without __init__")
-        obj = Obj(cls)
+        obj = self.inline_init(init, Obj(cls), args, kwargs, st)
         ov = V.vconc(obj)
-        self.call_repo(init, [ov] + args, kwargs, st, force_inline=True)
         sh = self.reg.class_shapes.get(class_key(cls))
         if isinstance(sh, RecS):
             if set(obj.attrs) != set(sh.fields):
                 raise BindingLost(f"{cls.__name__}.__init__ sets {sorted(obj.attrs)} but shape has {sorted(sh.fields)}")
             return V.vrec(sh, {k: self.as_sym(v) for k, v in obj.attrs.items()})
         return ov
+
+    def inline_init(self, init, obj, args, kwargs, st):
+        """Run a repo __init__ on an object under construction; returns the final object."""
+        key = key_of_function(init)
+        info = self.idx.funcs.get(key)
+        if info is None:
+            raise BindingLost(f"function {key} not found in source")
+        self.fstack.append(self.make_fctx(info.module, info.qualname, info.node))
+        try:
+            bound = self.bind_args(info.node, [V.vconc(obj)] + list(args), kwargs, st=st)
+            saved = st.cur
+            lvl = st.push(bound, None)
+            outs = self.exec_block(info.node.body, st)
+        finally:
+            self.fstack.pop()
+        normal = [o for o in outs if o.kind in ("fall", "return")]
+        for o in outs:
+            if o.kind == "raise":
+                o.st.cur = saved
+                self.side.append(o)
+        if len(normal) != 1:
+            raise OutOfSubset(f"__init__ of {obj.cls.__name__} has {len(normal)} normal paths")
+        o = normal[0]
+        final = o.st.levels[lvl].vars["self"]
+        st.pc, st.guards, st.levels = o.st.pc, o.st.guards, o.st.levels
+        st.cur = saved
+        return final.d
 
     def instantiate_dataclass(self, cls, args, kwargs, st, present=None):
         sh = self.shape_of_class(cls)
@@ -1080,7 +1105,8 @@ class CallsMixin:
         if c.pure and c.result is not None and not isinstance(c.result, MapOf):
             # the function is deterministic and reads only its arguments (fxvc obligation), so
             # its result is a function of them: equal calls give equal results
-            st.pc.append(self.py_eq(res, self.pure_result(c, [env[p] for p in c.params if not hasattr(c.params[p], "get")])))
+            # (leafwise: the fresh result is *named* by the function symbols)
+            st.pc.append(V.raw_eq(res, self.pure_result(c, [env[p] for p in c.params if not hasattr(c.params[p], "get")])))
         if c.defines and not isinstance(c.result, MapOf):
             dv = self.spec_eval(c.defines, env, st, mod, c)
             st.assume(self.py_eq(res, V.coerce(self.as_sym(dv), c.result)))
@@ -1095,7 +1121,10 @@ class CallsMixin:
             f.guards = []
             if not self.spec_mode and self.is_feasible(f):
                 self.side.append(Outcome("raise", f, exc=exc))
+        slim = (getattr(self.unit, "callee_ensures", None) or {}).get(c.key) is not None if self.unit is not None else False
         for cond in c.must_raise:
+            if slim:
+                continue       # this unit imports only selected facts of this callee (sound: fewer assumptions)
             cv = self.truth(self.spec_eval(cond, env, st, mod, c), st)
             st.assume(z3.Not(cv))
         for exc in c.may_raise:
@@ -1105,7 +1134,10 @@ class CallsMixin:
             f.guards = []
             if not self.spec_mode:
                 self.side.append(Outcome("raise", f, exc=exc))
+        keep = (getattr(self.unit, "callee_ensures", None) or {}).get(c.key) if self.unit is not None else None
         for name, text in c.ensures:
+            if keep is not None and not any(name.startswith(p) for p in keep):
+                continue
             st.assume(self.truth(self.spec_eval(text, env, st, mod, c), st))
         w = st.lookup("_warnings")
         if w is not None and not self.spec_mode and not c.is_silent:
